@@ -248,41 +248,44 @@ fn check_malformed(line: &Line, acc: &mut Acc) {
                 Err(p) => acc.violation(format!("panic:{}", panic_site(&p)), bad.len(), || (p.clone(), case("alone", p.clone()))),
             }
         }
-        // inside a file: exactly this line becomes an error item, neighbours intact
-        buf.clear();
-        buf.extend_from_slice(b"p.Q -> q:\n");
-        buf.extend_from_slice(&bad);
-        buf.extend_from_slice(b"\n    int after -> z\n");
-        buf.extend_from_slice(FOLLOW);
-        acc.transitions += 1;
-        acc.observations += 1;
-        let r = guarded(|| {
-            let items: Vec<_> = ProguardMapping::new(&buf).iter().collect();
-            if items.len() != 3 + FOLLOW_ITEMS {
-                return Err(format!("{} items instead of {}: {:?}", items.len(), 3 + FOLLOW_ITEMS, items));
-            }
-            if !follow_intact(&items[3..]) {
-                return Err(format!("the lines after the malformed one were disturbed: {:?}", &items[3..]));
-            }
-            match &items[1] {
-                Ok(r) => Err(format!("parsed as a record: {:?}", r)),
-                Err(e) => {
-                    if e.line().strip_suffix(b"\n").unwrap_or(e.line()) == &bad[..] {
-                        Ok(())
-                    } else {
-                        Err(format!("error carries {:?}", esc(e.line())))
+        // inside a file, behind every terminator: exactly this line becomes an error item, neighbours intact
+        for fterm in [&b"\n"[..], b"\r\n", b"\n\n", b"\r", b"\n\r\n"] {
+            buf.clear();
+            buf.extend_from_slice(b"p.Q -> q:\n");
+            buf.extend_from_slice(&bad);
+            buf.extend_from_slice(fterm);
+            buf.extend_from_slice(b"    int after -> z\n");
+            buf.extend_from_slice(FOLLOW);
+            acc.transitions += 1;
+            acc.observations += 1;
+            let r = guarded(|| {
+                let items: Vec<_> = ProguardMapping::new(&buf).iter().collect();
+                if items.len() != 3 + FOLLOW_ITEMS {
+                    return Err(format!("{} items instead of {}: {:?}", items.len(), 3 + FOLLOW_ITEMS, items));
+                }
+                if !follow_intact(&items[3..]) {
+                    return Err(format!("the lines after the malformed one were disturbed: {:?}", &items[3..]));
+                }
+                match &items[1] {
+                    Ok(r) => Err(format!("parsed as a record: {:?}", r)),
+                    Err(e) => {
+                        if e.line().strip_suffix(b"\n").or(e.line().strip_suffix(b"\r")).unwrap_or(e.line()) == &bad[..] {
+                            Ok(())
+                        } else {
+                            Err(format!("error carries {:?}", esc(e.line())))
+                        }
                     }
                 }
+                .and(match (&items[0], &items[2]) {
+                    (Ok(ProguardRecord::Class { .. }), Ok(ProguardRecord::Field { original: "after", .. })) => Ok(()),
+                    other => Err(format!("neighbours disturbed: {:?}", other)),
+                })
+            });
+            match r {
+                Ok(Ok(())) => {}
+                Ok(Err(d)) => acc.violation(format!("malformed:{}:in-file{}", label, if fterm == b"\n" { "" } else { ":terminator" }), bad.len(), || (format!("in file {:?}: {}", esc(&buf), d), case("inside a file", d.clone()))),
+                Err(p) => acc.violation(format!("panic:{}", panic_site(&p)), bad.len(), || (p.clone(), case("inside a file", p.clone()))),
             }
-            .and(match (&items[0], &items[2]) {
-                (Ok(ProguardRecord::Class { .. }), Ok(ProguardRecord::Field { original: "after", .. })) => Ok(()),
-                other => Err(format!("neighbours disturbed: {:?}", other)),
-            })
-        });
-        match r {
-            Ok(Ok(())) => {}
-            Ok(Err(d)) => acc.violation(format!("malformed:{}:in-file", label), bad.len(), || (format!("in file {:?}: {}", esc(&buf), d), case("inside a file", d.clone()))),
-            Err(p) => acc.violation(format!("panic:{}", panic_site(&p)), bad.len(), || (p.clone(), case("inside a file", p.clone()))),
         }
         acc.outcome(h64(&(label, &bad)), true);
     }
